@@ -188,6 +188,9 @@ func Run(t *testing.T, cfg Config, body func()) *Result {
 		cfg.Horizon = 1000 * time.Hour
 	}
 	res := &Result{}
+	for _, f := range globalResets {
+		f()
+	}
 	synctest.Test(t, func(t *testing.T) {
 		e := &Exec{
 			cfg:      cfg,
